@@ -145,6 +145,13 @@ def _decorators(fn: ast.AST) -> list[str]:
     return [ast.unparse(d) for d in getattr(fn, "decorator_list", [])]
 
 
+def _yields_connection(fn: ast.AST) -> bool:
+    """A context-manager method that obtains a connection (provider call / sqlite3.connect) and yields a name."""
+    has_acq = any((isinstance(n, ast.Call) and (_is_open_call(n) or _is_self_attr(n.func, PROVIDER))) for n in ast.walk(fn))
+    has_yield = any(isinstance(n, ast.Yield) and isinstance(n.value, (ast.Name, ast.Attribute)) for n in ast.walk(fn))
+    return has_acq and has_yield
+
+
 def _is_ctx_provider(fn: ast.AST) -> bool:
     return any(d.split(".")[-1] == "contextmanager" for d in _decorators(fn))
 
@@ -519,7 +526,9 @@ class Walker:
             self.cls.unknown(f"{self.cls.name}.{PROVIDER}: yields an unclassified connection (has_shared={env.has_shared})")
             k = "fresh"
         if k == "shared":
-            self.emit(live, ("acq", "shared", "provider"), env)
+            for p in live:
+                if not any(e[0] == "acq" for e in p.ev[p.ev.index(("with-start",)) if ("with-start",) in p.ev else 0:]):
+                    p.ev.append(("acq", "shared", "provider"))
         else:
             # the `sqlite3.connect` before the yield already produced ("acq", "fresh", "own"): re-label it
             for p in live:
@@ -550,9 +559,15 @@ class Walker:
             ce = it.context_expr
             asname = it.optional_vars.id if isinstance(it.optional_vars, ast.Name) else None
             # with self._connect() as conn:
-            if isinstance(ce, ast.Call) and _is_self_attr(ce.func, PROVIDER) and PROVIDER in methods \
-                    and _is_ctx_provider(methods[PROVIDER]):
-                prov = methods[PROVIDER]
+            # (or any other context-manager method of the class that yields a connection)
+            if isinstance(ce, ast.Call) and _is_self_attr(ce.func) and ce.func.attr in methods \
+                    and _is_ctx_provider(methods[ce.func.attr]) and env.depth < MAX_DEPTH \
+                    and (ce.func.attr == PROVIDER or _yields_connection(methods[ce.func.attr])):
+                prov = methods[ce.func.attr]
+                for p in live:
+                    while ("with-start",) in p.ev:
+                        p.ev.remove(("with-start",))
+                    p.ev.append(("with-start",))
                 sub = Env(cls, env.has_shared, env.fn_name)
                 sub.depth = env.depth + 1
                 sub.err, sub.in_err = env.err, env.in_err
@@ -614,6 +629,18 @@ def _life(paths: list[Path], err: list[tuple], kind: str) -> dict:
         if open_dml:
             commit_ok = False
             pending = True
+    # a path that leaves by `raise` after a successful data change, before its commit
+    for p in paths:
+        if p.end == "raise" and any(e[0] == "acq" and e[1] == kind for e in p.ev):
+            open_dml = False
+            for e in p.ev:
+                if e[0] == "dml":
+                    open_dml = True
+                elif e[0] in ("commit", "rollback"):
+                    open_dml = False
+            if open_dml:
+                pending = True
+                writes = True
     err_close = ("close", kind) in err
     err_commit = ("commit",) in err
     if ("rollback",) in err:
@@ -749,6 +776,8 @@ def extract(notes: list[str]) -> dict:
         for name, fn in methods.items():
             if name in (PROVIDER, "__init__") or name in OPENERS:
                 continue
+            if _is_ctx_provider(fn) and _yields_connection(fn):
+                continue  # a connection-yielding context manager is inlined into the sections that use it
             r = analyse_method(cls, name, fn)
             if r is not None:
                 secs[name] = r
@@ -791,6 +820,8 @@ def extract(notes: list[str]) -> dict:
                                 "async": isinstance(fn, ast.AsyncFunctionDef),
                                 "gen": any(isinstance(x, (ast.Yield, ast.YieldFrom)) for x in ast.walk(fn))})
         res["classes"][cls.tag] = {"name": cls.name, "shared_attr": cls.shared_attr, "mode_attr": cls.mode_attr,
+                                   "ctx_methods": sorted(n for n, f in methods.items()
+                                                         if _is_ctx_provider(f) and (n == PROVIDER or _yields_connection(f))),
                                    "provider_ctx": bool(prov is not None and _is_ctx_provider(prov))}
     tags = {c.name: c.tag for c in classes}
 
